@@ -15,6 +15,8 @@ mod c09;
 mod circuits;
 mod c05;
 mod c12;
+mod recxof;
+mod prio3rec;
 mod c13;
 mod c20;
 
@@ -37,6 +39,7 @@ fn main() {
         ("c05", "replay") => c05::replay(stdin_lines()),
         ("c20", "replay") => c20::replay(stdin_lines()),
         ("c13", "replay") => c13::replay(rest, stdin_lines()),
+        ("prio3", "record") => prio3rec::record(rest, stdin_lines()),
         ("c12", "replay") => c12::replay(rest[0].parse().unwrap(), stdin_lines()),
         (p, m) => {
             eprintln!("unknown property/mode {p} {m}");
